@@ -2,12 +2,814 @@
 C01 (hand-written code) — termination, iteration bounds, in-range indices / slices and absence of arithmetic
 traps for the models of Model/HandColr.lean ⇄ read-fonts/src/tables/colr.rs / colr/closure.rs / cpal.rs / svg.rs / stat.rs / hdmx.rs / vorg.rs / gasp.rs / meta.rs / tables.rs / offset_array.rs helpers.
 Tied to the real functions by harness group `colr.model` (`hc.*` driver commands).
+
+All statements hold for EVERY table: the record arrays may be unsorted or hold duplicates (the binary
+search is the transcription of core's `binary_search_by`, whose `Ok(i)` is in range for every comparison
+function), counts and offsets are arbitrary.  `Bytes d` (every element of the data is a byte) is only
+needed where a field's width matters (`u16 + u16` cannot overflow a `usize`, `num_layers: u8 ≤ 255`).
 -/
 import FontVerif.Model.HandColr
 import FontVerif.Lemmas.ReadIter
+import FontVerif.Lemmas.HandColr
 set_option linter.unusedVariables false
 set_option linter.unusedSimpArgs false
 namespace FontVerif.C01HandColr
-open FontVerif FontVerif.ReadIter FontVerif.HandRead FontVerif.HandColr
+open FontVerif FontVerif.ReadIter FontVerif.HandRead FontVerif.HandColr FontVerif.Layout
+
+example : Bytes [0, 1, 255] := by unfold Bytes; decide
+
+/-! ## record arrays handed out by the nullable-offset getters -/
+
+/-- **a resolved record array lies inside the table**: `Some(Ok(..))` means the `count` records of
+`size` bytes start at a non-null offset and end within the data. -/
+theorem resolveArray_in_bounds (len off count size a : Nat)
+    (h : resolveArray len off count size = some (.ok a)) :
+    a = off ∧ 0 < off ∧ off + count * size ≤ len := by
+  unfold resolveArray at h
+  split at h
+  · cases h
+  · split at h
+    · cases h
+    · split at h
+      · injection h with h; injection h with h
+        refine ⟨h.symm, by omega, by omega⟩
+      · cases h
+
+/-- **a resolved v1 list table lies inside the table**, and holds exactly `count` records -/
+theorem resolveList_in_bounds {α : Type} (d : List Nat) (off? : Option Nat) (hdr size : Nat) (f : Nat → α)
+    (l : ListT α) (hhdr : 4 ≤ hdr) (h : resolveList d off? hdr size f = some (.ok l)) :
+    0 < l.at_ ∧ l.at_ + hdr + l.recs.length * size ≤ d.length := by
+  unfold resolveList at h
+  split at h
+  · cases h
+  · rename_i off
+    split at h
+    · cases h
+    · split at h
+      · cases h
+      · split at h
+        · cases h
+        · rename_i count hc
+          split at h
+          · injection h with h; injection h with h
+            subst h
+            simp only [records_length]
+            refine ⟨by omega, by omega⟩
+          · cases h
+
+/-! ## `Colr::v0_base_glyph` / `v0_layer` -/
+
+/-- **`v0_base_glyph` never panics and hands out a well-formed layer range**: for every table and glyph
+id the `&records[ix]` after the binary search is in range (also for unsorted / duplicate records) and
+`first_layer_index + num_layers` cannot overflow; a returned range `start..end` is that of a record
+with the requested glyph id, `start ≤ end ≤ start + 0xFFFF`. -/
+theorem v0Range_safe (recs : List BaseGlyph) (gid : Nat)
+    (h16 : ∀ r ∈ recs, r.first < 65536 ∧ r.num < 65536) :
+    v0Range recs gid ≠ .trap ∧
+    ∀ s e, v0Range recs gid = .ok (some (s, e)) →
+      ∃ r ∈ recs, r.gid = gid ∧ s = r.first ∧ e = r.first + r.num ∧ s ≤ e ∧ e ≤ s + 65535 := by
+  unfold v0Range
+  cases hb : binarySearchBy recs.length (fun i => natCmp (recs.getD i default).gid gid) with
+  | err i => simp
+  | ok ix =>
+    obtain ⟨hlt, heq⟩ := bs_ok_lt hb
+    have hget : recs[ix]? = some recs[ix] := List.getElem?_eq_getElem hlt
+    have hmem : recs[ix] ∈ recs := List.getElem_mem hlt
+    have hr := h16 _ hmem
+    have hgid : recs[ix].gid = gid := by
+      have : (recs.getD ix default) = recs[ix] := by simp [List.getD, hget]
+      simp only [this, natCmp] at heq
+      split at heq
+      · cases heq
+      · split at heq
+        · assumption
+        · cases heq
+    have hadd : addU recs[ix].first recs[ix].num = some (recs[ix].first + recs[ix].num) := by
+      unfold addU checkedAdd MAXU; split
+      · rfl
+      · omega
+    simp only [hget, hadd]
+    refine ⟨by simp, ?_⟩
+    intro s e hse
+    injection hse with hse; injection hse with hse; injection hse with h1 h2
+    exact ⟨recs[ix], hmem, hgid, h1.symm, h2.symm, by omega, by omega⟩
+
+/-- the range is reachable, also in an unsorted array with duplicates; a glyph the search misses is `None` -/
+example : v0Range [⟨9, 1, 2⟩, ⟨5, 0xFFFF, 0xFFFF⟩] 5 = .ok (some (65535, 131070)) := by
+  simp [v0Range, binarySearchBy, bsLoop, natCmp, addU, checkedAdd, MAXU]
+example : v0Range [⟨9, 1, 2⟩, ⟨5, 0xFFFF, 0xFFFF⟩] 9 = .ok none := by
+  simp [v0Range, binarySearchBy, bsLoop, natCmp, addU, checkedAdd, MAXU]
+
+/-- the records of a parsed table hold `u16` fields -/
+theorem baseGlyphRecords_u16 (t : Colr) (hb : Bytes t.d) (recs : List BaseGlyph)
+    (h : t.baseGlyphRecords = some (.ok recs)) :
+    recs.length = t.numBase ∧ ∀ r ∈ recs, r.gid < 65536 ∧ r.first < 65536 ∧ r.num < 65536 := by
+  unfold Colr.baseGlyphRecords at h
+  split at h
+  · cases h
+  · cases h
+  · injection h with h; injection h with h
+    subst h
+    refine ⟨records_length _ _ _ _, ?_⟩
+    intro r hr
+    obtain ⟨i, _, rfl⟩ := mem_records hr
+    exact ⟨be2_lt _ hb _, be2_lt _ hb _, be2_lt _ hb _⟩
+
+/-- **`Colr::v0_base_glyph` on table bytes**: no panic for any table and any `GlyphId`; `Ok(Some(a..b))`
+only for a 16-bit glyph id, with `a ≤ b ≤ a + 0xFFFF`. -/
+theorem v0BaseGlyph_safe (t : Colr) (hb : Bytes t.d) (gid : Nat) :
+    v0BaseGlyph t gid ≠ .trap ∧
+    ∀ s e, v0BaseGlyph t gid = .ok (some (s, e)) → gid ≤ 65535 ∧ s ≤ e ∧ e ≤ s + 65535 := by
+  unfold v0BaseGlyph orNull
+  cases hr : t.baseGlyphRecords with
+  | none => simp
+  | some x =>
+    cases x with
+    | error e => simp
+    | ok recs =>
+      simp only []
+      by_cases hg : gid > 65535
+      · simp [hg]
+      · simp only [hg, ↓reduceIte]
+        have h16 := (baseGlyphRecords_u16 t hb recs hr).2
+        have := v0Range_safe recs gid (fun r hr => ⟨(h16 r hr).2.1, (h16 r hr).2.2⟩)
+        refine ⟨this.1, ?_⟩
+        intro s e hse
+        obtain ⟨r, _, _, _, _, h1, h2⟩ := this.2 s e hse
+        exact ⟨by omega, h1, h2⟩
+
+/-- **`v0_layer` answers exactly the indices inside the layer array**: `Ok` iff the array resolves and
+`index < num_layer_records`; every index of a range handed out by `v0_base_glyph` that lies beyond the
+array is an `Err(OutOfBounds)`, never a panic. -/
+theorem v0Layer_ok_iff (t : Colr) (index : Nat) :
+    (∃ l, v0Layer t index = .ok l) ↔ ∃ ls, t.layerRecords = some (.ok ls) ∧ index < ls.length := by
+  unfold v0Layer v0LayerOf orNull
+  cases hr : t.layerRecords with
+  | none => simp
+  | some x =>
+    cases x with
+    | error e => simp
+    | ok ls =>
+      simp only []
+      by_cases hi : index < ls.length
+      · simp [List.getElem?_eq_getElem hi, hi]
+      · have : ls[index]? = none := List.getElem?_eq_none_iff.mpr (by omega)
+        simp [this, hi]
+
+theorem v0Layer_no_trap (t : Colr) (index : Nat) : v0Layer t index ≠ .trap := by
+  unfold v0Layer v0LayerOf orNull
+  cases t.layerRecords with
+  | none => simp
+  | some x => cases x with
+    | error e => simp
+    | ok ls => simp only []; cases ls[index]? <;> simp
+
+/-! ## `Colr::v1_base_glyph` / `v1_layer` / `v1_clip_box` -/
+
+/-- a resolved paint lies inside the table with all the bytes of its format -/
+theorem resolvePaint_in_bounds (d : List Nat) (base off fmt p : Nat)
+    (h : resolvePaint d base off = .ok (fmt, p)) :
+    p = base + off ∧ 0 < off ∧ ∃ sz, paintSize fmt = some sz ∧ p + sz ≤ d.length ∧ p < d.length ∧ 3 ≤ sz := by
+  unfold resolvePaint at h
+  split at h
+  · cases h
+  · split at h
+    · cases h
+    · split at h
+      · cases h
+      · rename_i f hf
+        injection h with h; injection h with h1 h2
+        subst h1; subst h2
+        unfold paintRead at hf
+        split at hf
+        · cases hf
+        · rename_i fmt' hfmt
+          split at hf
+          · cases hf
+          · rename_i sz hsz
+            split at hf
+            · injection hf with hf
+              subst hf
+              have h3 : 3 ≤ sz := by
+                unfold paintSize at hsz
+                split at hsz <;> first | (injection hsz with hsz; omega) | cases hsz
+              exact ⟨rfl, by omega, sz, hsz, by omega, by omega, h3⟩
+            · cases hf
+
+/-- **`v1_base_glyph` never panics; the paint it hands out lies inside the table.** -/
+theorem v1BaseGlyph_safe (t : Colr) (gid : Nat) :
+    v1BaseGlyph t gid ≠ .trap ∧
+    ∀ fmt p, v1BaseGlyph t gid = .ok (some (fmt, p)) →
+      gid ≤ 65535 ∧ ∃ sz, paintSize fmt = some sz ∧ p + sz ≤ t.d.length := by
+  unfold v1BaseGlyph
+  by_cases hg : gid > 65535
+  · simp [hg]
+  · simp only [hg, ↓reduceIte]
+    unfold orNull
+    cases hl : t.baseGlyphList with
+    | none => simp
+    | some x =>
+      cases x with
+      | error e => simp
+      | ok l =>
+        simp only []
+        have hfind : v1Find l.recs gid ≠ .trap ∧ ∀ r, v1Find l.recs gid = .ok (some r) → r ∈ l.recs := by
+          unfold v1Find
+          cases hb : binarySearchBy l.recs.length (fun i => natCmp (l.recs.getD i default).gid gid) with
+          | err i => simp
+          | ok ix =>
+            have hlt := (bs_ok_lt hb).1
+            simp only [List.getElem?_eq_getElem hlt]
+            refine ⟨by simp, ?_⟩
+            intro r hr
+            injection hr with hr; injection hr with hr
+            subst hr
+            exact List.getElem_mem hlt
+        cases hf : v1Find l.recs gid with
+        | trap => exact absurd hf hfind.1
+        | err e => simp
+        | ok o =>
+          cases o with
+          | none => simp
+          | some r =>
+            simp only []
+            cases hp : resolvePaint t.d l.at_ r.off with
+            | error e => simp
+            | ok q =>
+              refine ⟨by simp, ?_⟩
+              intro fmt p h
+              injection h with h; injection h with h
+              subst h
+              obtain ⟨_, _, sz, h1, h2, _⟩ := resolvePaint_in_bounds _ _ _ _ _ hp
+              exact ⟨by omega, sz, h1, h2⟩
+
+/-- **`v1_layer(index)` is `Ok` only for `index < num_layers`, with the paint inside the table.** -/
+theorem v1Layer_safe (t : Colr) (index : Nat) :
+    v1Layer t index ≠ .trap ∧
+    ∀ fmt p, v1Layer t index = .ok (fmt, p) →
+      (∃ l, t.layerList = some (.ok l) ∧ index < l.recs.length) ∧
+      ∃ sz, paintSize fmt = some sz ∧ p + sz ≤ t.d.length := by
+  unfold v1Layer orNull
+  cases hl : t.layerList with
+  | none => simp
+  | some x =>
+    cases x with
+    | error e => simp
+    | ok l =>
+      simp only []
+      by_cases hi : index < l.recs.length
+      · simp only [List.getElem?_eq_getElem hi]
+        cases hp : resolvePaint t.d l.at_ l.recs[index] with
+        | error e => simp
+        | ok q =>
+          refine ⟨by simp, ?_⟩
+          intro fmt p h
+          injection h with h
+          subst h
+          obtain ⟨_, _, sz, h1, h2, _⟩ := resolvePaint_in_bounds _ _ _ _ _ hp
+          exact ⟨⟨l, rfl, hi⟩, sz, h1, h2⟩
+      · have : l.recs[index]? = none := List.getElem?_eq_none_iff.mpr (by omega)
+        simp [this]
+
+/-- **`v1_clip_box` never panics; the box it hands out belongs to a clip record whose glyph range
+contains the glyph and lies inside the table** (9 bytes for format 1, 13 for format 2). -/
+theorem v1ClipBox_safe (t : Colr) (gid : Nat) :
+    v1ClipBox t gid ≠ .trap ∧
+    ∀ fmt p, v1ClipBox t gid = .ok (some (fmt, p)) →
+      gid ≤ 65535 ∧
+      (∃ l c, t.clipList = some (.ok l) ∧ c ∈ l.recs ∧ c.start ≤ gid ∧ gid ≤ c.end_ ∧ p = l.at_ + c.off) ∧
+      ((fmt = 1 ∧ p + 9 ≤ t.d.length) ∨ (fmt = 2 ∧ p + 13 ≤ t.d.length)) := by
+  unfold v1ClipBox
+  by_cases hg : gid > 65535
+  · simp [hg]
+  · simp only [hg, ↓reduceIte]
+    unfold orNull
+    cases hl : t.clipList with
+    | none => simp
+    | some x =>
+      cases x with
+      | error e => simp
+      | ok l =>
+        simp only []
+        cases hb : binarySearchBy l.recs.length (fun i => clipCmp (l.recs.getD i default) gid) with
+        | err i => simp
+        | ok ix =>
+          obtain ⟨hlt, heq⟩ := bs_ok_lt hb
+          have hget : l.recs[ix]? = some l.recs[ix] := List.getElem?_eq_getElem hlt
+          have hD : l.recs.getD ix default = l.recs[ix] := by simp [List.getD, hget]
+          simp only [hget]
+          cases hc : resolveClipBox t.d l.at_ l.recs[ix].off with
+          | error e => simp
+          | ok q =>
+            refine ⟨by simp, ?_⟩
+            intro fmt p h
+            injection h with h; injection h with h
+            subst h
+            have hin : l.recs[ix].start ≤ gid ∧ gid ≤ l.recs[ix].end_ := by
+              rw [hD] at heq
+              unfold clipCmp at heq
+              split at heq
+              · cases heq
+              · split at heq
+                · cases heq
+                · omega
+            unfold resolveClipBox at hc
+            split at hc
+            · cases hc
+            · split at hc
+              · cases hc
+              · split at hc
+                · cases hc
+                · rename_i f hf
+                  split at hc
+                  · split at hc
+                    · injection hc with hc; injection hc with h1 h2
+                      exact ⟨by omega, ⟨l, l.recs[ix], rfl, List.getElem_mem hlt, hin.1, hin.2, h2.symm⟩,
+                        Or.inl ⟨h1.symm, by omega⟩⟩
+                    · cases hc
+                  · split at hc
+                    · split at hc
+                      · injection hc with hc; injection hc with h1 h2
+                        exact ⟨by omega, ⟨l, l.recs[ix], rfl, List.getElem_mem hlt, hin.1, hin.2, h2.symm⟩,
+                          Or.inr ⟨h1.symm, by omega⟩⟩
+                      · cases hc
+                    · cases hc
+
+/-! ## COLR v0 closures -/
+
+theorem v0LayerLoop_length (t : Colr) (pick : Layer → Nat) (s e : Nat) (acc : List Nat) :
+    (v0LayerLoop t pick s e acc).length ≤ acc.length + (e - s) := by
+  have key : ∀ (f : List Nat → Nat → List Nat) (hf : ∀ acc i, (f acc i).length ≤ acc.length + 1)
+      (l : List Nat) (acc : List Nat), (l.foldl f acc).length ≤ acc.length + l.length := by
+    intro f hf l
+    induction l with
+    | nil => intro acc; simp
+    | cons x xs ih =>
+      intro acc
+      simp only [List.foldl_cons, List.length_cons]
+      have h1 := ih (f acc x)
+      have h2 := hf acc x
+      omega
+  unfold v0LayerLoop
+  simp only []
+  refine Nat.le_trans (key _ ?_ _ _) (by simp)
+  intro acc i
+  split
+  · simp
+  · omega
+
+/-- one member of the glyph set: no panic, at most `0xFFFF` trips of the layer loop -/
+theorem v0ClosureStep_total (t : Colr) (recs : List BaseGlyph) (pick : Layer → Nat)
+    (h16 : ∀ r ∈ recs, r.first < 65536 ∧ r.num < 65536) (acc : List Nat) (gid : Nat) :
+    ∃ out, v0ClosureStep t recs pick acc gid = some out ∧ out.length ≤ acc.length + 65535 := by
+  unfold v0ClosureStep
+  by_cases hg : gid > 65535
+  · simp [hg]
+  · simp only [hg, ↓reduceIte]
+    have hs := v0Range_safe recs gid h16
+    cases hr : v0Range recs gid with
+    | trap => exact absurd hr hs.1
+    | err e => exact ⟨acc, rfl, by omega⟩
+    | ok o =>
+      cases o with
+      | none => exact ⟨acc, rfl, by omega⟩
+      | some p =>
+        obtain ⟨s, e⟩ := p
+        obtain ⟨r, _, _, _, _, h1, h2⟩ := hs.2 s e hr
+        refine ⟨_, rfl, ?_⟩
+        have := v0LayerLoop_length t pick s e acc
+        omega
+
+theorem v0ClosureLoop_total (t : Colr) (recs : List BaseGlyph) (pick : Layer → Nat)
+    (h16 : ∀ r ∈ recs, r.first < 65536 ∧ r.num < 65536) :
+    ∀ (gs acc : List Nat), ∃ out, v0ClosureLoop t recs pick gs acc = some out ∧
+      out.length ≤ acc.length + gs.length * 65535 := by
+  intro gs
+  induction gs with
+  | nil => intro acc; exact ⟨acc, rfl, by simp⟩
+  | cons g gs ih =>
+    intro acc
+    obtain ⟨a1, h1, l1⟩ := v0ClosureStep_total t recs pick h16 acc g
+    obtain ⟨a2, h2, l2⟩ := ih a1
+    refine ⟨a2, by simp only [v0ClosureLoop, h1, h2], ?_⟩
+    simp only [List.length_cons, Nat.succ_mul]
+    omega
+
+/-- **the COLR v0 closures terminate without panic for every table and glyph set**, after at most
+`0xFFFF` trips of the layer loop per member of the glyph set (the `start..end` range comes from two
+`u16` fields); every `v0_layer` call beyond the layer array is an `Err`, not a panic
+(`v0Layer_ok_iff`). -/
+theorem v0Closure_total (t : Colr) (hb : Bytes t.d) (glyphs : List Nat) :
+    (∃ out, v0ClosureGlyphs t glyphs = some out ∧ out.length ≤ glyphs.length + glyphs.length * 65535) ∧
+    (∃ out, v0ClosurePalettes t glyphs = some out ∧ out.length ≤ glyphs.length * 65535) := by
+  unfold v0ClosureGlyphs v0ClosurePalettes
+  cases hr : t.baseGlyphRecords with
+  | none => exact ⟨⟨glyphs, rfl, by omega⟩, ⟨[], rfl, by simp⟩⟩
+  | some x =>
+    cases x with
+    | error e => exact ⟨⟨glyphs, rfl, by omega⟩, ⟨[], rfl, by simp⟩⟩
+    | ok recs =>
+      have h16 := (baseGlyphRecords_u16 t hb recs hr).2
+      have h16' : ∀ r ∈ recs, r.first < 65536 ∧ r.num < 65536 := fun r hr => ⟨(h16 r hr).2.1, (h16 r hr).2.2⟩
+      obtain ⟨o1, e1, l1⟩ := v0ClosureLoop_total t recs (·.gid) h16' glyphs glyphs
+      obtain ⟨o2, e2, l2⟩ := v0ClosureLoop_total t recs (·.pal) h16' glyphs []
+      exact ⟨⟨o1, e1, l1⟩, ⟨o2, e2, by simpa using l2⟩⟩
+
+/-! ## COLR v1 closure -/
+
+theorem core_clipClosure (c : Ctx) (s e : Nat) (b : Option (Option Nat)) :
+    core (clipClosure c s e b) = core c := by
+  unfold clipClosure
+  cases b with
+  | none => rfl
+  | some b =>
+    simp only []
+    split
+    · cases b with
+      | none => rfl
+      | some base => exact core_addVars c base 4
+    · rfl
+
+theorem core_v1Clips (cl : List (Nat × Nat × Option (Option Nat))) : ∀ c : Ctx, core (v1Clips c cl) = core c := by
+  unfold v1Clips
+  induction cl with
+  | nil => intro c; rfl
+  | cons r rs ih => intro c; simp only [List.foldl_cons]; rw [ih, core_clipClosure]
+
+/-- **the COLR v1 closure terminates within a bound linear in the number of paints, on every paint graph
+— cyclic, shared, arbitrarily deep**: the model's fuel (65 for the 64 nesting levels) is never
+exhausted, no `u8` / index panic occurs (`nesting_level_left` returns to 64; the `&records[ix]` of
+`PaintColrGlyph` is in range for unsorted records too), every paint body runs at most once (the visited
+set is duplicate free and holds only positions of paints), and the total number of `dispatch` calls is
+at most `#base records + 255 · #visited paints`. -/
+theorem v1Closure_bounded (G : Graph) (hG : LayersU8 G)
+    (clips : Option (List (Nat × Nat × Option (Option Nat)))) (glyphSet : List Nat) :
+    let c := (v1Closure G clips glyphSet).1
+    c.starved = false ∧ c.trap = false ∧ c.level = 64 ∧ Vis G c ∧
+    c.calls ≤ G.numRoots + 255 * c.visited.length := by
+  have hroots : Step G {} (v1Roots G glyphSet) G.numRoots := by
+    unfold v1Roots Graph.numRoots
+    cases hb : G.baseList with
+    | none => exact step_refl _
+    | some recs =>
+      simp only []
+      have hrec : ∀ (c : Ctx) (p : Nat), c.level = 64 → Step G c (dispatch G 65 c p) 1 :=
+        fun c p hl => dispatch_step hG 64 c p (by omega) (by omega)
+      refine step_mono (dispatchAll_step hrec _ {} rfl) ?_
+      exact List.length_filterMap_le _ _
+  have hcore : core (v1Closure G clips glyphSet).1 = core (v1Roots G glyphSet) := by
+    unfold v1Closure
+    simp only []
+    cases clips with
+    | none => rfl
+    | some cl => simp only []; rw [core_v1Clips]; rfl
+  obtain ⟨h1, h2, h3, ⟨ext, h4⟩, h5, h6⟩ := hroots
+  simp only [core, Prod.mk.injEq] at hcore
+  obtain ⟨c1, c2, c3, c4, c5⟩ := hcore
+  have hvis0 : Vis G ({} : Ctx) := ⟨List.nodup_nil, by intro v hv; cases hv⟩
+  have hvis := h6 hvis0
+  simp only []
+  refine ⟨by rw [c5, h1], by rw [c4, h2], by rw [c2, h3], ?_, ?_⟩
+  · unfold Vis at *; rw [c1]; exact hvis
+  · rw [c3, c1]
+    have : ({} : Ctx).visited.length = 0 := rfl
+    have : ({} : Ctx).calls = 0 := rfl
+    omega
+
+/-- hypothesis of `v1Closure_bounded` is satisfiable, and the bound is attained by a self-referencing
+glyph: one record, `PaintColrGlyph` painting itself -/
+example : LayersU8 ⟨fun p => if p = 10 then some (.colrGlyph 7) else none, none, some [(7, some 10)]⟩ := by
+  intro p num first h
+  simp only at h
+  split at h <;> simp at h
+
+example :
+    let G : Graph := ⟨fun p => if p = 10 then some (.colrGlyph 7) else none, none, some [(7, some 10)]⟩
+    let c := (v1Closure G none [7]).1
+    c.calls = 2 ∧ c.visited = [10] ∧ c.glyphs = [7] := by decide +kernel
+
+/-! ### the graph of table bytes -/
+
+theorem nodeAt_some_lt (d : List Nat) (p : Nat) (h : (nodeAt d p).isSome = true) : p < d.length := by
+  unfold nodeAt at h
+  split at h
+  · simp at h
+  · rename_i fmt hf
+    unfold paintRead at hf
+    split at hf
+    · cases hf
+    · rename_i f hr
+      unfold readAt checkedAdd at hr
+      split at hr
+      · cases hr
+      · rename_i e he
+        split at he
+        · injection he with he
+          split at hr
+          · omega
+          · cases hr
+        · cases he
+
+theorem graphOf_layersU8 (t : Colr) (hb : Bytes t.d) : LayersU8 (graphOf t) := by
+  intro p num first h
+  have h : nodeAt t.d p = some (.layers num first) := h
+  unfold nodeAt at h
+  split at h
+  · cases h
+  · rename_i fmt hf
+    split at h
+    · cases h
+    · rename_i sz hsz
+      injection h with h
+      by_cases h1 : fmt = 1
+      · rw [if_pos h1] at h
+        injection h with h1 h2
+        rw [← h1]
+        have := be1_lt t.d hb (p + 1)
+        omega
+      · rw [if_neg h1] at h
+        exfalso
+        revert h
+        repeat' split
+        all_goals (intro h; cases h)
+
+/-- **`Colr::v1_closure` on table bytes**: never starved, no panic, at most one body per byte of the
+table and at most `256 · len` `dispatch` calls — linear in the table length, whatever cycles, sharing or
+nesting depth the paint graph has. -/
+theorem v1ClosureOf_bounded (t : Colr) (hb : Bytes t.d) (glyphSet : List Nat) :
+    let c := (v1ClosureOf t glyphSet).1
+    c.starved = false ∧ c.trap = false ∧ c.visited.length ≤ t.d.length ∧ c.calls ≤ 256 * t.d.length := by
+  unfold v1ClosureOf
+  by_cases hv : t.version < 1
+  · rw [if_pos hv]
+    exact ⟨rfl, rfl, Nat.zero_le _, Nat.zero_le _⟩
+  · rw [if_neg hv]
+    have h := v1Closure_bounded (graphOf t) (graphOf_layersU8 t hb) (clipsOf t) glyphSet
+    simp only [] at h ⊢
+    obtain ⟨h1, h2, h3, ⟨hnd, hprov⟩, h5⟩ := h
+    have hlen : ((v1Closure (graphOf t) (clipsOf t) glyphSet).1).visited.length ≤ t.d.length := by
+      apply nodup_length_le _ _ hnd
+      intro v hvm
+      obtain ⟨p, hp, rfl⟩ := hprov v hvm
+      have := nodeAt_some_lt t.d p hp
+      have : p % 4294967296 ≤ p := Nat.mod_le _ _
+      omega
+    have hroots : (graphOf t).numRoots ≤ t.d.length := by
+      unfold Graph.numRoots graphOf
+      simp only []
+      cases hl : t.baseGlyphList with
+      | none => simp
+      | some x =>
+        cases x with
+        | error e => simp
+        | ok l =>
+          simp only [List.length_map]
+          have := resolveList_in_bounds t.d _ 4 6 _ l (by omega) hl
+          omega
+    exact ⟨h1, h2, hlen, by omega⟩
+
+/-! ## `Svg::glyph_data` -/
+
+/-- **the document slice handed out by `Svg::glyph_data` lies inside the document list's data**: it is
+`offset .. offset + length` of a record whose glyph range contains the glyph, the sum did not overflow
+and `end ≤ data.len()` — for unsorted / overlapping records as well. -/
+theorem svgDoc_in_bounds (recs : List SvgRec) (dataLen gid s e : Nat)
+    (h : svgDoc recs dataLen gid = some (s, e)) :
+    s ≤ e ∧ e ≤ dataLen ∧ ∃ r ∈ recs, r.start ≤ gid ∧ gid ≤ r.end_ ∧ s = r.off ∧ e = r.off + r.len := by
+  unfold svgDoc at h
+  split at h
+  · cases h
+  · rename_i ix hb
+    obtain ⟨hlt, heq⟩ := bs_ok_lt hb
+    have hget : recs[ix]? = some recs[ix] := List.getElem?_eq_getElem hlt
+    simp only [hget] at h
+    unfold checkedAdd at h
+    split at h
+    · cases h
+    · rename_i e' he
+      split at he
+      · injection he with he
+        split at h
+        · injection h with h; injection h with h1 h2
+          have hin : recs[ix].start ≤ gid ∧ gid ≤ recs[ix].end_ := by
+            simp only [List.getD, hget, Option.getD_some] at heq
+            unfold svgCmp at heq
+            split at heq
+            · cases heq
+            · split at heq
+              · cases heq
+              · omega
+          exact ⟨by omega, by omega, recs[ix], List.getElem_mem hlt, hin.1, hin.2, h1.symm, by omega⟩
+        · cases h
+      · cases he
+
+/-! ## `Hdmx::record_for_size` -/
+
+/-- **`Hdmx::record_for_size` terminates after at most ⌈log₂⌉ trips, without overflow in `lo + hi` /
+`mid + 1`** (a slice holds at most `isize::MAX` bytes, so `len() ≤ usize::MAX / 2`), for sorted and
+unsorted device records, every record size (0 included) and every `num_glyphs`; a returned record is one
+that `ComputedArray::get` read in bounds and whose pixel size is the requested one. -/
+theorem hdmxLoop_total (a : HdmxArr) (size : Nat) :
+    ∀ (fuel lo hi trips : Nat), lo ≤ hi → hi ≤ MAXU / 2 → bitLen (hi - lo) < fuel →
+      ∃ r n, hdmxLoop a size fuel lo hi trips = some (r, n) ∧ r ≠ .trap ∧ n ≤ trips + bitLen (hi - lo) ∧
+        ∀ st, r = .ok (some st) → ∃ idx, idx < hi ∧ a.get idx = some (st, size) := by
+  intro fuel
+  induction fuel with
+  | zero => intro lo hi trips _ _ h; omega
+  | succ f ih =>
+    intro lo hi trips hle hmax hf
+    unfold hdmxLoop
+    by_cases hlt : lo < hi
+    · simp only [hlt, ↓reduceIte]
+      unfold hdmxStep addU checkedAdd
+      have h1 : lo + hi ≤ MAXU := by unfold MAXU at *; omega
+      simp only [h1, ↓reduceIte]
+      have hb1 : bitLen 0 = 0 := by simp [bitLen]
+      have hpos : 1 ≤ bitLen (hi - lo) := by
+        have := bitLen_mono_half (hi - lo) 0 (by omega) (by omega)
+        omega
+      cases hg : a.get ((lo + hi) / 2) with
+      | none => exact ⟨.ok none, trips + 1, rfl, by simp, by omega, by intro st h; cases h⟩
+      | some q =>
+        obtain ⟨start, px⟩ := q
+        simp only []
+        by_cases hlt2 : px < size
+        · simp only [hlt2, ↓reduceIte]
+          have h2 : (lo + hi) / 2 + 1 ≤ MAXU := by unfold MAXU at *; omega
+          simp only [h2, ↓reduceIte]
+          have hm := bitLen_mono_half (hi - lo) (hi - ((lo + hi) / 2 + 1)) (by omega) (by omega)
+          obtain ⟨r, n, e, hr, hn, hst⟩ := ih ((lo + hi) / 2 + 1) hi (trips + 1) (by omega) hmax (by omega)
+          exact ⟨r, n, e, hr, by omega, hst⟩
+        · simp only [hlt2, ↓reduceIte]
+          by_cases hgt : px > size
+          · simp only [hgt, ↓reduceIte]
+            have hm := bitLen_mono_half (hi - lo) ((lo + hi) / 2 - lo) (by omega) (by omega)
+            obtain ⟨r, n, e, hr, hn, hst⟩ := ih lo ((lo + hi) / 2) (trips + 1) (by omega) (by omega) (by omega)
+            refine ⟨r, n, e, hr, by omega, ?_⟩
+            intro st h
+            obtain ⟨idx, hi1, hi2⟩ := hst st h
+            exact ⟨idx, by omega, hi2⟩
+          · simp only [hgt, ↓reduceIte]
+            have hpx : px = size := by omega
+            refine ⟨.ok (some start), trips + 1, rfl, by simp, by omega, ?_⟩
+            intro st h
+            injection h with h; injection h with h
+            subst h; subst hpx
+            exact ⟨(lo + hi) / 2, by omega, hg⟩
+    · simp only [hlt, ↓reduceIte]
+      exact ⟨.ok none, trips, rfl, by simp, by omega, by intro st h; cases h⟩
+
+/-- a record `ComputedArray::get` reads lies inside the record bytes -/
+theorem hdmxGet_in_bounds (a : HdmxArr) (idx st px : Nat) (h : a.get idx = some (st, px)) :
+    st = idx * a.itemLen ∧ st + 2 + a.numGlyphs ≤ a.area.length ∧ px = a.area.getD st 0 := by
+  unfold HdmxArr.get checkedMul at h
+  split at h
+  · cases h
+  · rename_i s hs
+    split at hs
+    · injection hs with hs
+      split at h
+      · injection h with h; injection h with h1 h2
+        subst h1
+        exact ⟨by omega, by omega, h2.symm⟩
+      · cases h
+    · cases hs
+
+theorem hdmxRecordForSize_total (a : HdmxArr) (size : Nat) (hlen : a.area.length ≤ MAXU / 2) :
+    ∃ r n, hdmxRecordForSize a size = some (r, n) ∧ r ≠ .trap ∧ n ≤ bitLen a.len ∧
+      ∀ st, r = .ok (some st) → st + 2 + a.numGlyphs ≤ a.area.length ∧ a.area.getD st 0 = size := by
+  have hl : a.len ≤ a.area.length := by
+    unfold HdmxArr.len compLen; split
+    · omega
+    · exact Nat.div_le_self _ _
+  obtain ⟨r, n, e, hr, hn, hst⟩ := hdmxLoop_total a size (a.len + 1) 0 a.len 0 (by omega) (by omega)
+    (by have := bitLen_le_self (a.len - 0); omega)
+  refine ⟨r, n, e, hr, by simpa using hn, ?_⟩
+  intro st h
+  obtain ⟨idx, _, hg⟩ := hst st h
+  obtain ⟨_, h2, h3⟩ := hdmxGet_in_bounds a idx st size hg
+  exact ⟨h2, h3.symm⟩
+
+/-- a hit after two trips in a table of three 4-byte records (`num_glyphs = 2`) -/
+example : hdmxRecordForSize ⟨[10, 9, 1, 2, 12, 9, 1, 2, 20, 9, 1, 2], 4, 2⟩ 20 = some (.ok (some 8), 2) := by decide +kernel
+
+example : bitLen 65535 ≤ 16 := bitLen_le_of_lt_pow 16 65535 (by decide)
+
+/-! ## `Vorg::vertical_origin_y` -/
+
+/-- the result is the default or the `vert_origin_y` of a record with the requested glyph index
+(`metrics.get(ix)` after `Ok(ix)` never falls back to `0`) -/
+theorem vorgY_from_table (recs : List (Nat × Nat)) (dflt gid : Nat) :
+    vorgY recs dflt gid = dflt ∨ ∃ r ∈ recs, r.1 = gid ∧ vorgY recs dflt gid = r.2 := by
+  unfold vorgY
+  cases hb : binarySearchBy recs.length (fun i => natCmp (recs.getD i default).1 gid) with
+  | err i => exact Or.inl rfl
+  | ok ix =>
+    obtain ⟨hlt, heq⟩ := bs_ok_lt hb
+    have hget : recs[ix]? = some recs[ix] := List.getElem?_eq_getElem hlt
+    have hD : recs.getD ix default = recs[ix] := by simp [List.getD, hget]
+    simp only [hget]
+    refine Or.inr ⟨recs[ix], List.getElem_mem hlt, ?_, rfl⟩
+    rw [hD] at heq
+    unfold natCmp at heq
+    split at heq
+    · cases heq
+    · split at heq
+      · assumption
+      · cases heq
+
+/-! ## `DataMapRecord::data` / `Metadata::read_with_args` -/
+
+/-- **the metadata slice lies inside the table**: `Ok` means a non-null offset and
+`offset + length ≤ len` (no wrap-around: `split_off` then `slice(0..len)`). -/
+theorem metaData_in_bounds (dataLen off len a b : Nat) (lang l : Bool)
+    (h : metaData dataLen off len lang = .ok (a, b, l)) :
+    a = off ∧ b = off + len ∧ 0 < off ∧ b ≤ dataLen ∧ l = lang := by
+  unfold metaData at h
+  split at h
+  · cases h
+  · split at h
+    · cases h
+    · split at h
+      · injection h with h; injection h with h1 h; injection h with h2 h3
+        exact ⟨h1.symm, h2.symm, by omega, by omega, h3.symm⟩
+      · cases h
+
+/-! ## `compute_checksum` -/
+
+theorem checksumLoop_spec : ∀ (d : List Nat) (sum trips : Nat),
+    (checksumLoop d sum trips).2.2 = trips + d.length / 4 ∧
+    (checksumLoop d sum trips).2.1.length = d.length % 4 ∧
+    (sum < 4294967296 → (checksumLoop d sum trips).1 < 4294967296) := by
+  intro d sum trips
+  fun_induction checksumLoop d sum trips with
+  | case1 a b c e rest sum trips ih =>
+    obtain ⟨h1, h2, h3⟩ := ih
+    refine ⟨by simp only [List.length_cons]; omega, by simp only [List.length_cons]; omega, ?_⟩
+    intro _
+    exact h3 (Nat.mod_lt _ (by decide))
+  | case2 rem sum trips hne =>
+    have hl : rem.length < 4 := by
+      match rem, hne with
+      | [], _ => simp
+      | [_], _ => simp
+      | [_, _], _ => simp
+      | [_, _, _], _ => simp
+      | a :: b :: c :: e :: rest, hne => exact absurd rfl (hne a b c e rest)
+    refine ⟨by simp only []; omega, by simp only []; omega, fun h => h⟩
+
+/-- **`compute_checksum` makes exactly ⌊len / 4⌋ trips of the quad loop, handles the 0–3 remaining
+bytes without indexing, and every `u32` addition wraps** (`wrapping_add`): the result is a `u32`. -/
+theorem computeChecksum_total (d : List Nat) :
+    (computeChecksum d).2 = d.length / 4 ∧ (computeChecksum d).1 < 4294967296 := by
+  unfold computeChecksum
+  have := checksumLoop_spec d 0 0
+  simp only []
+  exact ⟨by omega, Nat.mod_lt _ (by decide)⟩
+
+/-! ## `ArrayOfOffsets` / `ArrayOfNullableOffsets` -/
+
+/-- **`ArrayOfOffsets::get(idx)` resolves only offsets of the array, inside the data**: `Ok` implies
+`idx < len()`, a non-null offset within the data, and a successful `T::read` there; an index past the
+end is `InvalidCollectionIndex`, not a panic. -/
+theorem arrGet_ok {α : Type} (offs : List Nat) (dataLen : Nat) (read : Nat → Except CErr α) (idx : Nat) (a : α)
+    (h : arrGet offs dataLen read idx = .ok a) :
+    idx < offs.length ∧ ∃ off, offs[idx]? = some off ∧ 0 < off ∧ off ≤ dataLen ∧ read off = .ok a := by
+  unfold arrGet at h
+  split at h
+  · cases h
+  · rename_i off hoff
+    have hlt : idx < offs.length := by
+      rcases Nat.lt_or_ge idx offs.length with hl | hl
+      · exact hl
+      · rw [List.getElem?_eq_none_iff.mpr hl] at hoff; cases hoff
+    split at h
+    · cases h
+    · split at h
+      · cases h
+      · exact ⟨hlt, off, hoff, by omega, by omega, h⟩
+
+theorem arrGet_past_end {α : Type} (offs : List Nat) (dataLen : Nat) (read : Nat → Except CErr α) (idx : Nat)
+    (h : offs.length ≤ idx) : arrGet offs dataLen read idx = .error (.badIndex (idx % 4294967296)) := by
+  unfold arrGet
+  rw [List.getElem?_eq_none_iff.mpr h]
+
+/-- **`iter()` yields exactly `len()` items** (one per offset, resolved or not) — also for the nullable
+variant -/
+theorem arrIter_length {α : Type} (offs : List Nat) (dataLen : Nat) (read : Nat → Except CErr α) :
+    (arrIter offs dataLen read).length = offs.length ∧
+    (arrIterNullable offs dataLen read).length = offs.length := by
+  simp [arrIter, arrIterNullable]
+
+/-- the nullable variant answers `Some(Ok)` under the same conditions -/
+theorem arrGetNullable_ok {α : Type} (offs : List Nat) (dataLen : Nat) (read : Nat → Except CErr α) (idx : Nat)
+    (a : α) (h : arrGetNullable offs dataLen read idx = some (.ok a)) :
+    idx < offs.length ∧ ∃ off, offs[idx]? = some off ∧ 0 < off ∧ off ≤ dataLen ∧ read off = .ok a := by
+  unfold arrGetNullable at h
+  split at h
+  · cases h
+  · rename_i r hr
+    injection h with h
+    exact arrGet_ok offs dataLen read idx a h
 
 end FontVerif.C01HandColr
